@@ -1131,8 +1131,9 @@ class KullbackLeibler(Functional):
                 xlogy = scipy.special.xlogy(self.prior, self.prior / x)
                 res = (x - self.prior + xlogy).inner(self.domain.one())
 
-        if not np.isfinite(res):
+        if not np.isfinite(res) or np.any(np.less_equal(x, 0)):
             # In this case, some element was less than or equal to zero
+            # (not visible in `res` where the prior is zero)
             return np.inf
         else:
             return res
@@ -1265,8 +1266,9 @@ class KullbackLeiblerConvexConj(Functional):
                 xlogy = scipy.special.xlogy(self.prior, 1 - x)
                 res = -self.domain.element(xlogy).inner(self.domain.one())
 
-        if not np.isfinite(res):
+        if not np.isfinite(res) or np.any(np.greater_equal(x, 1)):
             # In this case, some element was larger than or equal to one
+            # (not visible in `res` where the prior is zero)
             return np.inf
         else:
             return res
